@@ -44,6 +44,7 @@ func main() {
 		depth := fs.Int("depth", 200, "")
 		loop := fs.Int("loop", 300, "")
 		params := fs.String("p", "", "k=v,...")
+		repoDir := fs.String("repo", "/repo", "")
 		prof := fs.String("cpuprofile", "", "")
 		fs.Parse(os.Args[2:])
 		if *prof != "" {
@@ -59,7 +60,7 @@ func main() {
 				pk = append(pk, "grits/cmd")
 			}
 		}
-		P, err := gse.Load("/repo", "/verif/harness", pk...)
+		P, err := gse.Load(*repoDir, "/verif/harness", pk...)
 		if err != nil {
 			fmt.Println(err)
 			os.Exit(2)
